@@ -242,13 +242,13 @@ u_cfg(uint64_t idx, void *arg)
     img(imgA, c.size, 1);
     img(imgB, c.size, 2);
     static const size_t auxes_quick[] = { 0, 1, 2, 3, 5 };
-    for (size_t ai = 0; ai <= c.size + 1; ai++) {
+    for (size_t ai = 0; ai <= c.size + 5; ai++) {
         /* ai == 0: no aux buffer; otherwise aux size ai */
         if (!vh_tier) {
             int keep = 0;
             for (size_t q = 0; q < sizeof auxes_quick / sizeof auxes_quick[0]; q++)
                 keep |= ai == auxes_quick[q];
-            keep |= ai == c.size || ai == c.size + 1;
+            keep |= ai == c.size || ai == c.size + 1 || ai == c.size + 2 || ai == c.size + 4 || ai == c.size + 5;
             if (!keep)
                 continue;
         } else if (c.size > 16 && !(ai <= 4 || ai + 2 >= c.size || ai % 5 == 0)) {
